@@ -14,7 +14,12 @@ float64} to depth 2 / 3, random histories incl. half precisions and ambient chan
 follow the instruments; EVERY feature (incl. Barrier up / down, Ones, Zeros, Empty, ModuleOutput of parameter-free modules) in BOTH forms
 get(None) / get(i), and the inputs / hedge / portfolio / P&L of parameter-free hedgers fed with it (beside state-independent companions only,
 and beside prev_hedge), on the grid ambient default x instrument dtype (all cast forms, all stock classes, 4 derivative classes, a change of
-the ambient default between simulation and evaluation): all in the dtype of the instrument's buffers (keys dtype:feature:*, dtype:hedger-feature:*).
+the ambient default between simulation and evaluation): all in the dtype of the instrument's buffers (keys dtype:feature:*, dtype:hedger-feature:*);
+EVERY criterion of the library (EntropicRiskMeasure, EntropicLoss, IsoelasticLoss, ExpectedShortfall, QuadraticCVaR, OCE) and a user criterion on the
+inherited cash search: loss (1-D / 2-D / with target), cash, Hedger.compute_loss, Hedger.price on the grid ambient default x instrument dtype (keys
+dtype:criterion:*); VALUES rather than labels of the simulated buffers of every primary (declared by constructor / casts around an earlier simulation /
+ambient default): a float64 series is not float32-representable throughout, a narrower instrument reproduces seed for seed the fresh instrument of its
+dtype and is not the rounded ambient-default run (keys dtype:simulate:values:*).
 correspondence with the SYSTEM model (Model/InstrSys.lean, op "instr_sys"): (a) all the sequences above, re-read as histories of a
 system (one primary, the derivative on it, the listed option when there is one) with the result queries the predicate part computes;
 (b) exhaustive sequences (depth 3 over 10 letters; thorough: also depth 4 over 7 letters) of derivative-level operations on a Heston stock with two derivatives of
@@ -1758,4 +1763,6 @@ def check(ctx):
              "to() forms and the constructor, loss/price with n_times in {1,2,3} at the end, both global defaults; one parameter-free hedger object reused over "
              "histories of casts / re-simulations of its instruments (5 hedgers, exhaustive over {none, f32, f64} to depth 2 quick / 3 thorough x init in {None, f64}, "
              "plus random histories), also as long-lived hedgers on the real side of the system model; every feature in both forms get(None) / get(i) and hedgers "
-             "fed with it on the grid ambient default x instrument dtype (predicate) and every feature of the system model's vocabulary on the same grid (model); non-trivial = >= 2 operations; distinct = sha1 of canonical case")
+             "fed with it on the grid ambient default x instrument dtype (predicate) and every feature of the system model's vocabulary plus loss / price on the same grid (model); "
+             "every criterion (loss / cash / compute_loss / price) on that grid; value-level checks of the simulated buffers of all 8 primaries (float64 not "
+             "float32-representable; narrower dtypes reproduce the fresh instrument of that dtype seed for seed); non-trivial = >= 2 operations; distinct = sha1 of canonical case")
